@@ -167,15 +167,50 @@ impl Run {
 				let tr = if w.get(2) == Some(&"ws") { Tr::Ws } else { Tr::Http };
 				let trs = if tr == Tr::Ws { "ws" } else { "http" };
 				let mut ok = None;
+				// once the server was told to stop, a successful TCP connect proves nothing: the freed
+				// port may already belong to another process.  Then the peer must identify itself.
+				let verify = log_has(&shared, "A drop|ok") || shared.log.lock().unwrap().iter().any(|l| l.starts_with("A stop "));
+				// if the port can be bound again nobody listens on it: every connect would be refused by
+				// the kernel (and no foreign server is bothered with a probe request)
+				let port_free = verify && {
+					let sock = if self.env.addr.is_ipv4() { tokio::net::TcpSocket::new_v4() } else { tokio::net::TcpSocket::new_v6() };
+					match sock {
+						Ok(sock) => {
+							let _ = sock.set_reuseaddr(true);
+							sock.bind(self.env.addr).is_ok()
+						}
+						Err(_) => false,
+					}
+				};
+				if port_free {
+					note_action(&shared, format!("open {c} {trs} refused"), "ok");
+					return;
+				}
 				if let Ok(mut conn) = Conn::open(self.env.addr).await {
 					if tr == Tr::Ws {
 						let _ = conn.send(&upgrade_request(None, true)).await;
 						let rp = tokio::time::timeout(WAIT, conn.read_response()).await.ok().and_then(|r| r.ok()).flatten();
 						if rp.map(|r| r.status) == Some(101) {
-							ok = Some(conn);
+							let mut ours = true;
+							if verify {
+								let _ = conn.ws_text(&call_json(SUB_BASE + 900, "whoami", 0)).await;
+								let r = tokio::time::timeout(WAIT, conn.ws_read_text()).await.ok().and_then(|r| r.ok()).flatten();
+								ours = r.and_then(|t| result_u64(t.as_bytes())) == Some(shared.nonce);
+							}
+							if ours {
+								ok = Some(conn);
+							}
 						}
 					} else {
-						ok = Some(conn);
+						let mut ours = true;
+						if verify {
+							let _ = conn.send(&post_request(&call_json(SUB_BASE + 900, "whoami", 0))).await;
+							let r = tokio::time::timeout(WAIT, conn.read_response()).await.ok().and_then(|r| r.ok()).flatten();
+							ours = r.and_then(|rp| result_u64(&rp.body)) == Some(shared.nonce);
+						}
+						if ours {
+							ok = Some(conn);
+						}
 					}
 				}
 				match ok {
@@ -407,6 +442,8 @@ async fn run_case(lines: &[String], out: &mut Out) -> bool {
 	out.count(if drop_only { "case.kind=drop_only" } else { "case.kind=stop" });
 	let stop_at = log.iter().position(|l| l.starts_with("A stop ") || l == "A drop|ok");
 	let mut started_before_stop = 0;
+	// distinctness is counted per observed HISTORY (assembly + the whole trace)
+	let mut sig = lines[0].splitn(3, ' ').nth(2).unwrap_or("").to_string();
 	for (i, l) in log.iter().enumerate() {
 		if let Some(a) = l.strip_prefix("A ") {
 			let (text, o) = a.rsplit_once('|').unwrap_or((a, "ok"));
@@ -415,7 +452,9 @@ async fn run_case(lines: &[String], out: &mut Out) -> bool {
 			if text.ends_with(" no") {
 				out.count(&format!("act.{verb}.no"));
 			}
-			out.line(format!("st {text}"), o.to_string(), Ok(()), verb == "stop" || verb == "drop" || verb == "gone");
+			sig.push_str(text);
+			sig.push(';');
+			out.line(format!("st {text}"), o.to_string(), Ok(()), false);
 		} else {
 			let mut w = l.split(' ');
 			let (verb, arg) = (w.next().unwrap_or(""), w.next().unwrap_or(""));
@@ -432,7 +471,9 @@ async fn run_case(lines: &[String], out: &mut Out) -> bool {
 				out.count("obs.start_after_stop_signal");
 			}
 			out.count(&format!("obs.{verb}"));
-			out.line(mapped, "ok".into(), Ok(()), true);
+			sig.push_str(&mapped);
+			sig.push(';');
+			out.line(mapped, "ok".into(), Ok(()), false);
 		}
 	}
 	out.count(&format!("case.started_before_stop={}", started_before_stop.min(4)));
@@ -461,7 +502,10 @@ async fn run_case(lines: &[String], out: &mut Out) -> bool {
 		}
 	}
 	let ok = orc.is_ok() && run.failed.is_none();
-	out.line("st end".into(), format!("end resolved={} started={} onwire={}", resolved as u8, join(&started), join(&onwire)), orc, true);
+	if stop_at.is_some() {
+		out.nontrivial.insert(fxhash(sig.as_bytes()));
+	}
+	out.line("st end".into(), format!("end resolved={} started={} onwire={}", resolved as u8, join(&started), join(&onwire)), orc, false);
 	// cleanup
 	let cs: Vec<u64> = run.conns.keys().copied().collect();
 	for c in cs {
@@ -643,7 +687,7 @@ fn main() {
 	} else {
 		cases.extend(split_cases(corpus_lines("C10")));
 		let mut rng = Rng::new(a.seed);
-		let total = a.cases.unwrap_or(if thorough { 4000 } else { 300 });
+		let total = a.cases.unwrap_or(if thorough { 15000 } else { 1000 });
 		let mut n = 1000u64;
 		while (cases.len() as u64) < total {
 			// one base history, `stop` at EVERY position of it (thorough) / at a few positions (quick)
